@@ -506,8 +506,6 @@ func verifLemmaSourceConnected(o *IPFSLog, A iface.IPFSLogOrderedEntries) {
 //@     invariant fresh(next) && fresh(om(next).values) && freshKeys(om(next))
 //@     invariant options != nil && validEntries(options.Entries)
 //@ @wf invariant len(om(options.Entries).keys) == 0 ==> len(om(next).keys) == 0
-//@ @load invariant [computed-heads-are-unreferenced-entries] old(len(options.Heads)) == 0 && old(options.Entries) != nil ==> forall i int :: 0 <= i && i < len(options.Heads) ==> validEntry(options.Heads[i]) && has(omv(options.Entries), ehash(options.Heads[i])) && notNamedIn(options.Entries, ehash(options.Heads[i]))
-//@ @load invariant [every-unreferenced-entry-is-a-computed-head] old(len(options.Heads)) == 0 && old(options.Entries) != nil ==> forall k string :: has(omv(options.Entries), k) ==> (exists r int :: 0 <= r && r < len(options.Heads) && options.Heads[r] == omv(options.Entries)[k]) || namedIn(options.Entries, k)
 //@     lockinvariant held[om(next).lock] == 0
 //@     loopmodifies om(next).keys, mapof(om(next).values)
 //@   loop 1
